@@ -15,15 +15,26 @@ USIZE = 64
 
 
 class St:
-    __slots__ = ("mem", "pc", "obligations")
+    __slots__ = ("mem", "pc", "obligations", "defs")
 
-    def __init__(self, mem=None, pc=None, obligations=None):
+    def __init__(self, mem=None, pc=None, obligations=None, defs=None):
         self.mem = mem or {}
         self.pc = pc or []
         self.obligations = obligations or []
+        # ids of path-condition entries that are *definitions* of fresh variables introduced by summaries (total
+        # functions of their inputs: they never restrict the inputs)
+        self.defs = defs or set()
 
     def fork(self, cond):
-        return St(dict(self.mem), self.pc + [cond], list(self.obligations))
+        return St(dict(self.mem), self.pc + [cond], list(self.obligations), set(self.defs))
+
+    def define(self, constraints):
+        for c in constraints:
+            self.pc.append(c)
+            self.defs.add(c.get_id())
+
+    def copy(self):
+        return St(dict(self.mem), list(self.pc), list(self.obligations), set(self.defs))
 
 
 def get_path(v, path):
@@ -36,6 +47,10 @@ def get_path(v, path):
             v = v[2]
         elif v[0] == "closure":
             v = v[2][i]
+        elif v[0] == "enum":
+            v = v[2][i]
+        elif v[0] == "cf" and i == 0:
+            v = v[2]
         else:
             raise Unsupported("projection .%s of %s" % (i, v[0]))
     return v
@@ -105,7 +120,11 @@ class Machine:
             v = self.read(st, frame, p[1])
             if isinstance(v, tuple) and v[0] == "ptr":
                 return v[1], tuple(v[2])
-            raise Unsupported("deref of non pointer %r" % (v,))
+            # a shared reference to immutable data is modelled as the data itself: give it a cell of its own
+            self.frame_counter += 1
+            key = (self.frame_counter, "anon")
+            st.mem[key] = v
+            return key, ()
         if k == "field":
             key, path = self.resolve(st, frame, p[1])
             return key, path + (p[2],)
@@ -186,6 +205,14 @@ class Machine:
         if m:
             # unsizing / pointer casts do not change the value in this model
             return self.operand(st, frame, parse_operand(m.group(1)))
+        if re.match(r"^(std::option::)?Option::<.*>::None$", r):
+            return ("opt", z3.BoolVal(False), None)
+        m = re.match(r"^(?:std::option::)?Option::<.*>::Some\((.*)\)$", r)
+        if m:
+            return ("opt", z3.BoolVal(True), self.operand(st, frame, parse_operand(m.group(1))))
+        m = re.match(r"^\((.*,.*)\)$", r)
+        if m and not r.startswith("(*") and not re.match(r"^\(_\d+", r):
+            return ("tuple", tuple(self.operand(st, frame, parse_operand(x)) for x in split_top(m.group(1))))
         m = re.match(r"^\[(.*)\]$", r)
         if m:
             items = [self.operand(st, frame, parse_operand(x)) for x in split_top(m.group(1))] if m.group(1).strip() else []
@@ -358,6 +385,10 @@ class Machine:
             o = v[1]
             if isinstance(o, tuple) and o[0] == "opt":
                 return o[1] if val == 1 else z3.Not(o[1])
+            if isinstance(o, tuple) and o[0] == "cf":      # ControlFlow: Continue = 0, Break = 1
+                return o[1] if val == 0 else z3.Not(o[1])
+            if isinstance(o, tuple) and o[0] == "enum":
+                return z3.BoolVal(o[1] == val)
             raise Unsupported("discriminant of %r" % (o,))
         if z3.is_bool(v):
             return v if val != 0 else z3.Not(v)
